@@ -34,6 +34,11 @@ CHECKS = {
     text="Generated VCFs of full variety (ploidy 1-6 per call, missing / partial genotypes, GT-less records, PS/HP/PQ with Integer or String PS, multi-ALT, duplicates) are unphased in-process; input and output are parsed with htslib and compared field by field; idempotence and unphase(phase(x)) = unphase(x) are checked as metamorphic relations.",
     note="Trusted: htslib (pysam) parsing on both sides; well-formed = complete header and sorted positions; floats compared at 5 significant digits.",
     ref="DESIGN.md section 4, C13"),
+ "C12": dict(
+    technique="property-based testing (Hypothesis) over a structured VCF model; independent count from the model vs. --tsv / --block-list / --gtf output",
+    text="Generated VCFs (ploidy 2-4, PS or HP, missing/partial calls, interleaved and nested sets, several chromosomes, multi-ALT and duplicate records) are given to run_stats with drawn options; every count of the TSV, the block list and the identities of the statement are recomputed from the generating model, never by re-parsing the file.",
+    note="Trusted: the counting rules written down in props/c12_stats.py (reader's documented skipping rule; het = complete GT with >= 2 distinct alleles); one phase encoding per file (mixed encodings are rejected by the reader by design).",
+    ref="DESIGN.md section 4, C12"),
 }
 
 NOT_YET = {}
